@@ -164,6 +164,14 @@ func Byte2(tag string, lo, hi byte) byte {
 	return byte(v)
 }
 
+// ByteIn draws a byte from a set of bytes (ranges as in StrIn).
+func ByteIn(tag string, alphabet string) byte {
+	d := next(tag, "uint")
+	var v uint64
+	json.Unmarshal(d.Value, &v)
+	return byte(v)
+}
+
 func bytesOf(d drawRec) []byte {
 	var v []int
 	json.Unmarshal(d.Value, &v)
